@@ -191,6 +191,8 @@ class SchedPool(HTTPConnectionPool):
 
 
 class TagPeer(N.BaseHandler):
+    chunked_late = False      # script 6: W's reply is chunked and its second chunk only arrives with the NEXT request on that socket
+
     def __init__(self, fail_first, status503):
         self.fail_first = fail_first
         self.status503 = status503
@@ -220,6 +222,14 @@ class TagPeer(N.BaseHandler):
                 st["eof"] = True
                 raise ConnectionResetError(104, "reset")
             st["busy"] = None
+            held = st.pop("held", None)
+            if self.chunked_late and tag.startswith(b"/W"):
+                body = b"body-of:" + tag
+                st["held"] = b"%x\r\n" % (len(body) - 4) + body[4:] + b"\r\n0\r\n\r\n"
+                return b"HTTP/1.1 200 OK\r\nTransfer-Encoding: chunked\r\n\r\n4\r\n" + body[:4] + b"\r\n"
+            if held is not None:
+                # the rest of the previous (chunked) reply was still in flight: it arrives in front of this reply
+                return held + N.response_bytes(200, "OK", body=b"body-of:" + tag)
             if self.status503 and tag.startswith(b"/W"):
                 return N.response_bytes(503, "X", body=b"busy:" + tag)
             return N.response_bytes(200, "OK", body=b"body-of:" + tag)
@@ -258,6 +268,13 @@ def _request(pool, script, name, out):
             data = r.read()
             r.release_conn()
             out[name] = ("ok", r.status, data)
+        elif script == 6:
+            # a chunked reply read only in part, then released while the rest is still in flight: that connection is spent
+            r = pool.urlopen("GET", "/%s" % name, retries=False, preload_content=False, pool_timeout=None)
+            first = r.read(4)
+            r.release_conn()
+            want = b"body-of:/" + name.encode()
+            out[name] = ("ok", r.status, want if (first and want.startswith(first)) else first)
         elif script == 5:
             # the very first request on the wire is reset and nothing retries: this caller (whichever thread it is) gets the error
             # and leaves a None placeholder in the queue — possibly on top of a connection the other thread has just returned
@@ -290,6 +307,7 @@ def _request(pool, script, name, out):
 def _schedule(maxsize, block, script, other, w1, x1, w2):
     global SCHED
     peer = TagPeer(script in (1, 5), script == 3)
+    peer.chunked_late = script == 6
     netw = N.install(peer)
     E.install_clock()
     plan = [("W", w1), ("X", x1), ("W", w2), ("X", None), ("W", None)]
@@ -448,13 +466,15 @@ def JOBS(tier):
     jobs = []
     for maxsize in (1, 2):
         for block in (True, False):
-            for script in (0, 1, 2, 3, 5):
+            for script in (0, 1, 2, 3, 5, 6):
                 for other in ("close", "request", "stream", "request+close"):
                     if quick and other == "stream" and script not in (0, 2):
                         continue
                     if script == 4 and other != "request":
                         continue
                     if script == 5 and (other != "request" or maxsize != 2):
+                        continue
+                    if script == 6 and other != "request":
                         continue      # (a pooled connection whose response is still being read + close(): the caller gave it away)
                     if other == "request+close" and (script not in (0, 2) or (quick and maxsize == 2)):
                         continue
